@@ -63,10 +63,15 @@ class C15(fw.Prop):
                                          cosem.Obis(1, 0, j, 8, 0, 255), 2) for j, c in enumerate(clocks)]
             ids = {}
 
+            FALSY = {0: 0, 1: False, 2: b"", 3: []}      # value ids 0..3 stand for transmitted values that are falsy in Python
+
             def to_py(c):
                 if c[0] == "N":
                     return None
                 if c[0] == "V":
+                    if c[1] in FALSY:
+                        ids[b""] = 2
+                        return FALSY[c[1]]
                     return c[1]
                 b = dt_bytes(c[2], c[3])
                 ids[b] = c[1]
@@ -77,12 +82,25 @@ class C15(fw.Prop):
                     if c[0] == "N":
                         return ("n",)
                     if c[0] == "V":
+                        if c[1] == 2:
+                            ids[b""] = 2
+                            return ("o", b"")
+                        if c[1] == 3:
+                            return ("a", [])
                         return ("u32", c[1])
                     b = dt_bytes(c[2], c[3])
                     ids[b] = c[1]
                     return ("o", b)
                 data = c14.ref_encode(("a", [("s", [to_tree(c) for c in r]) for r in rows]))
                 out = parser.parse_bytes(data)
+            elif d.get("via_profile"):
+                # through the profile-generic object of the COSEM layer (always the same logical name, as one meter model
+                # read many times, or many meters of one type with differently configured profiles)
+                from dlms_cosem.cosem import profile_generic as pg
+                from dlms_cosem.protocol.xdlms.selective_access import CaptureObject
+                inst = pg.ProfileGeneric(logical_name=cosem.Obis(1, 0, 99, 1, 0, 255), capture_objects=[CaptureObject(a, 0) for a in caps],
+                                         capture_period=period)
+                out = pg.ProfileGeneric.DYNAMIC_CONVERTERS[2](inst, [[to_py(c) for c in r] for r in rows])
             else:
                 out = parser.parse_entries([[to_py(c) for c in r] for r in rows])
             txt = []
@@ -95,7 +113,7 @@ class C15(fw.Prop):
                     if not isinstance(o, ColumnValue):
                         cells.append("?" + type(o).__name__)
                         continue
-                    col = [k for k, a in enumerate(caps) if a is o.attribute]
+                    col = [k for k, a in enumerate(caps) if a is o.attribute or (d.get("via_profile") and a == o.attribute)]
                     col = col[0] if col else "?"
                     v = o.value
                     if v is None:
@@ -105,11 +123,15 @@ class C15(fw.Prop):
                         cells.append(f"{col}=t{us}:{zone}")
                     elif isinstance(v, (bytes, bytearray)):
                         cells.append(f"{col}=v{ids.get(bytes(v), '?')}")
+                    elif v is False:
+                        cells.append(f"{col}=v1")
+                    elif isinstance(v, list) and not v:
+                        cells.append(f"{col}=v3")
                     else:
                         cells.append(f"{col}=v{v}")
                 txt.append(",".join(cells))
             return "ok " + ";".join(txt)
-        return fw.Case(line, impl, "prop", dict(d, via_bytes=via_bytes), tags=("entries-bytes" if via_bytes else "entries",))
+        return fw.Case(line, impl, "prop", dict(d, via_bytes=via_bytes), tags=("entries-bytes" if via_bytes else ("entries-profile" if d.get("via_profile") else "entries"),))
 
     # ------------------------------------------------------------------ object lists
     def objects_case(self, d):
@@ -193,6 +215,8 @@ class C15(fw.Prop):
             yield self.make_case(d)
             if k % 3 == 0:
                 yield self.make_case(dict(d, via_bytes=True))
+            if k % 4 == 1:
+                yield self.make_case(dict(d, via_profile=True))
             if nrows and k % 4 == 0:
                 bad = [list(r) for r in rows]
                 i = rng.randrange(nrows)
@@ -203,6 +227,14 @@ class C15(fw.Prop):
                 i = rng.randrange(nrows)
                 bad[i][clocks.index(True)] = ["V", fresh()]
                 yield self.make_case({"op": "entries", "period": period, "clocks": clocks, "rows": bad})
+        # transmitted values that are falsy in Python (0, False, empty octet string, empty array) are values, not nulls
+        for falsy in (0, 1, 2, 3):
+            for clocks in ([False, False], [True, False], [False, True, False]):
+                rows = [[["V", falsy] if not c else ["T", fresh(), 10 ** 12 + 10 ** 9 * i, 0] for c in clocks] for i in range(3)]
+                rows.append([["V", falsy] if not c else ["N"] for c in clocks])
+                yield self.make_case({"op": "entries", "period": 15, "clocks": clocks, "rows": rows})
+                if falsy != 1:
+                    yield self.make_case({"op": "entries", "period": 15, "clocks": clocks, "rows": rows, "via_bytes": True})
         # clock column in every position of a 12-column buffer
         for c in range(12):
             clocks = [j == c for j in range(12)]
